@@ -30,4 +30,28 @@ TEXTS = {
   "note": BASE_NOTE + " That the cw20 contract really moved `amount` before calling the hook is cw20-base semantics.",
   "technique": "MIR edge-dominance of hook/direct guards over the handler call + identity-flow provenance of payout, attributes and handler arguments",
   "engine": "E-STRUCT"},
+ "C07": {
+  "level": "Decides over all production code: the complete inventory of message constructions (aggregates and any call producing a message-typed value) contains only the "
+           "allowed kinds; every Wasm::Execute matches an allowed (target, payload, funds) template; Mint/Burn only in provide/withdraw to the LP token; the single TransferFrom "
+           "has owner = transaction sender and recipient = the pair; router hops spend exactly the router's own queried balance; every payout goes through the transfer "
+           "constructor (re-verified) with recipient from to/receiver/sender. This rules out third-party debits for every bystander and allowance at once.",
+  "note": BASE_NOTE + " Conservation inside the bank module / cw20-base is trusted.",
+  "technique": "whole-program message-site inventory over MIR + identity-flow provenance of each field",
+  "engine": "E-STRUCT"},
+ "C11": {
+  "level": "Decides for all routes, minimums and recipients: with minimum_receive given exactly one AssertMinimumReceive self-message is pushed after the complete hop list on "
+           "every success path; its fields originate from (last hop's ask asset, recipient's balance sampled in this call, the parameter, the hops' recipient); dispatch wires "
+           "the two same-typed amounts into the right roles; the assertion is `balance - prev (aborting) < minimum => Err` strictly; the router attaches no reply-carrying "
+           "sub-message; both entry points forward minimum/to/sender unchanged.",
+  "note": BASE_NOTE + " Atomic revert of the transaction on a failing message is platform semantics.",
+  "technique": "MIR push-order / must-pass-through analysis of the message list + provenance of assertion fields + guard normalisation",
+  "engine": "E-STRUCT"},
+ "C13": {
+  "level": "Decides the structural clauses: each hop offers the router's entire queried balance; the recipient is attached exactly when a counter (0, +1 per hop before the test) "
+           "equals operations.len() over the unadapted route; pairs pay `to` or else the swap sender; empty routes and routes with != 1 dangling output are rejected before any "
+           "message is built (validator loop: remove(offer) then insert(ask) per operation, exit test len != 1); hook Swap and execute Swap are wire-compatible. "
+           "'Exactly the quoted amount' is NOT decided (equality of two runtime computations); it follows on paper from these clauses plus C12.",
+  "note": BASE_NOTE,
+  "technique": "closure/upvar counter discipline and loop-shape analysis on MIR, guard dominance, enum shape comparison",
+  "engine": "E-STRUCT"},
 }
